@@ -338,7 +338,7 @@ fn main() {
     let mut rec = Recorder::new();
 
     // ---- shape fin-world: a consistent world, its certificates in random order, with duplicates
-    let n_world = if args.thorough { 20000 } else { 1500 };
+    let n_world = if args.thorough { 40000 } else { 6000 };
     for _ in 0..n_world {
         let max_slot = if rng.chance(1, 5) { 14 } else { 8 };
         let w = gen_world(&mut rng, max_slot);
@@ -366,7 +366,7 @@ fn main() {
     }
 
     // ---- shape fin-perm: every order of a small certificate set; final answers must not depend on the order
-    let n_sets = if args.thorough { 60 } else { 8 };
+    let n_sets = if args.thorough { 40 } else { 10 };
     for _ in 0..n_sets {
         let (ops, _w) = loop {
             let w = gen_world(&mut rng, 5);
@@ -403,7 +403,7 @@ fn main() {
     }
 
     // ---- shape fin-chaos: arbitrary ops over a tiny universe (inconsistent sets included)
-    let n_chaos = if args.thorough { 20000 } else { 1500 };
+    let n_chaos = if args.thorough { 40000 } else { 6000 };
     for _ in 0..n_chaos {
         rec.begin_case("fin-chaos");
         let mut c = FinCase::new();
@@ -442,7 +442,7 @@ fn main() {
     // ---- shape pool-world: worlds delivered to a real PoolImpl as certificates and blocks
     let rt = tokio::runtime::Builder::new_current_thread().build().expect("runtime");
     let mut factory = CertFactory::new();
-    let n_pool = if args.thorough { 6000 } else { 500 };
+    let n_pool = if args.thorough { 12000 } else { 2000 };
     for i in 0..n_pool {
         let w = gen_world(&mut rng, if i % 7 == 0 { 13 } else { 8 });
         let mut ops = world_pops(&mut rng, &w);
